@@ -2790,7 +2790,7 @@ class Entity(MutableMapping[str, str]):
         buffer.write(ind + '{\n')
         buffer.write(f'{ind}\t"id" "{self.id}"\n')
         for key, value in sorted(self._keys.items(), key=operator.itemgetter(0)):
-            buffer.write(f'{ind}\t"{key}" "{escape_text(value)}"\n')
+            buffer.write(f'{ind}\t"{escape_text(key)}" "{escape_text(value)}"\n')
 
         if self._fixup is not None:
             self._fixup.export(buffer, ind)
@@ -3328,7 +3328,7 @@ class EntityFixup(MutableMapping[str, str]):
         for fixup in sorted(self._fixup.values(), key=operator.attrgetter('id')):
             # When exporting, pad the index with zeros if necessary
             buffer.write(
-                f'{ind}\t"replace{fixup.id:02}" "${fixup.var} {escape_text(fixup.value)}"\n'
+                f'{ind}\t"replace{fixup.id:02}" "${escape_text(fixup.var)} {escape_text(fixup.value)}"\n'
             )
 
     def __str__(self) -> str:
